@@ -17,6 +17,10 @@ class HarnessProblem(Exception):
     """The harness itself cannot do its job (reference failed, health check): exit 2, never a violation."""
 
 
+class Inadmissible(Exception):
+    """The generated configuration is outside the property's domain (counted as a discarded case)."""
+
+
 class LibRaised(Exception):
     """The code under test raised on an input the property says it must handle."""
 
@@ -255,6 +259,8 @@ def safe_check(pid, check_case, case) -> Result:
     """check_case, with an exception of the code under test turned into a violation."""
     try:
         return check_case(case)
+    except Inadmissible as e:
+        return Result(skipped=str(e))
     except LibRaised as e:
         res = Result(nontrivial=True)
         res.bad(f"{pid}/no-exception", f"code under test raised on an admissible input: {e}")
